@@ -27,7 +27,80 @@ def units(tier, seed):
     for spec in fam:
         if spec["name"].split(":")[0] in ("S6", "S7", "S8", "S17", "S1", "S10", "S11"):
             us.append({"kind": "differential", "spec": spec, "max_execs": 3000 if tier == "quick" else 30000})
+    for spec in fam:
+        if spec["name"].split(":")[0] in ("S1", "S8", "S10", "S17", "S11"):
+            for rep in ("tree", "ge", "sge", "dsge", "stack"):
+                for algo in ("gp", "hc", "rs"):
+                    us.append({"kind": "search", "spec": spec, "rep": rep, "algo": algo, "depth_off": 2,
+                               "max_dev": 1, "max_execs": 25 if tier == "quick" else 300})
     return us
+
+
+def run_search(unit) -> UnitResult:
+    """Whole searches (initialisation, steps, mapping, evaluation) leave the grammar untouched."""
+    from geneticengine.algorithms.gp.gp import GeneticProgramming
+    from geneticengine.algorithms.hill_climbing import HC
+    from geneticengine.algorithms.random_search import RandomSearch
+    from geneticengine.evaluation.budget import EvaluationBudget
+    from geneticengine.problems import SingleObjectiveProblem
+    from mc.explorer import gene_domain
+
+    r = UnitResult()
+    ctx = P.open_ctx(unit)
+    try:
+        g = ctx.g
+        if g is None:
+            return r
+        d = P.unit_depth(ctx)
+        rep_kind = unit["rep"]
+        skw = {}
+        if rep_kind == "stack":
+            skw = {"wide_domain": gene_domain(P.stack_alphabet(g))}
+        elif rep_kind in ("ge", "sge"):
+            skw = {"wide_domain": gene_domain(P.GENES)}
+        elif rep_kind == "dsge":
+            skw = {"wide_domain": gene_domain(P.GENES_DSGE)}
+        snap0 = grammar_snapshot(g)
+
+        def run(src):
+            rep = make_rep(rep_kind, g, src, d, gene_length=6)
+            problem = SingleObjectiveProblem(lambda p: float(len(repr(p)) % 5))
+            if unit["algo"] == "gp":
+                alg = GeneticProgramming(problem, EvaluationBudget(8), rep, random=src, population_size=4)
+            elif unit["algo"] == "hc":
+                alg = HC(problem, EvaluationBudget(6), rep, random=src, number_of_mutations=2)
+            else:
+                alg = RandomSearch(problem, EvaluationBudget(4), rep, random=src)
+            n = {"c": 0}
+            real = alg.is_done
+
+            def is_done():
+                n["c"] += 1
+                return True if n["c"] > 12 else real()
+
+            alg.is_done = is_done
+            alg.search()
+
+        st = ExploreStats()
+        for ex in explore(run, max_dev=unit["max_dev"], max_execs=unit["max_execs"], horizon=6000, stats=st, source_kwargs=skw):
+            r.executions += 1
+            r.count("searches_checked")
+            if ex.exc is not None:
+                r.nontrivial += 1
+            now = grammar_snapshot(g)
+            if now != snap0:
+                dd = diff_snap(snap0, now)
+                r.add_violation(Violation(PROP, f"{unit['algo']}.search[{rep_kind}]", "grammar-changed", {"field": dd.split(":")[0][:40], "rep": rep_kind},
+                                          {"unit": P.clean_unit(unit), "choices": list(ex.choices)},
+                                          f"{ctx.spec['name']}: a {unit['algo']} search with the {rep_kind} representation changed the grammar: {dd[:300]}"))
+                snap0 = now
+        r.states = st.executions
+        r.capped = st.capped_paths
+        r.truncated = st.truncated
+        r.samples.append({"grammar": ctx.spec["name"], "search": unit["algo"], "rep": rep_kind, "runs": st.executions})
+    finally:
+        ctx.bundle.cleanup()
+    return r
 
 
 def run_differential(unit) -> UnitResult:
@@ -86,18 +159,11 @@ def run_differential(unit) -> UnitResult:
 def run_unit(unit) -> UnitResult:
     if unit["kind"] == "differential":
         return run_differential(unit)
-    state = {}
+    if unit["kind"] == "search":
+        return run_search(unit)
+    state = {"n": 0}
 
-    def oracle(ctx, ev, r, tm):
-        if "snap" not in state:
-            # the snapshot taken at open_ctx time would be better; producers build the grammar before the
-            # first event, and extract_grammar is the only writer allowed
-            state["snap"] = state.get("snap0")
-        if tm is None:
-            r.nontrivial += 1
-        r.count("calls_checked")
-        if r.counters["calls_checked"] % state["every"] and tm is not None:
-            return
+    def check_now(ctx, ev, r):
         now = grammar_snapshot(ctx.g)
         if now != state["snap0"]:
             d = diff_snap(state["snap0"], now)
@@ -106,34 +172,33 @@ def run_unit(unit) -> UnitResult:
                                       f"{ctx.spec['name']}: after {ev.op}: {d[:300]}"))
             state["snap0"] = now
 
-    # open the context here to snapshot the grammar before any call
-    ctx0 = P.open_ctx(unit)
-    try:
-        if ctx0.g is None:
-            return UnitResult()
-        state["snap0"] = grammar_snapshot(ctx0.g)
-    finally:
-        pass
-    state["every"] = 1 if unit["kind"] != "map" else 1
-    # drive() re-opens a context (fresh classes): snapshot that one lazily at the first event instead
-    ctx0.bundle.cleanup()
-    first = {}
-
-    def oracle2(ctx, ev, r, tm):
-        if "done" not in first:
-            first["done"] = True
-            # baseline = grammar as extracted, re-extracted from fresh identical classes (nothing ran on it)
+    def oracle(ctx, ev, r, tm):
+        if "snap0" not in state:
+            # baseline = the grammar as extracted from fresh identical classes on which nothing ever ran
             b2 = G.build(ctx.spec)
             try:
                 state["snap0"] = grammar_snapshot(b2.extract(bool(unit.get("xd", False))))
             finally:
                 b2.cleanup()
-        oracle(ctx, ev, r, tm)
+            state["ctx"] = ctx
+        state["last"] = ev
+        state["n"] += 1
+        r.count("calls_checked")
+        if tm is None:
+            r.nontrivial += 1
+        # a change to the grammar persists, so it is enough to look after every failing call, every 64th call
+        # and once at the end of the unit (below)
+        if tm is None or state["n"] % 64 == 0 or state["n"] <= 2:
+            check_now(ctx, ev, r)
 
-    return P.drive(unit, oracle2)
+    r = P.drive(unit, oracle)
+    if "last" in state:
+        check_now(state["ctx"], state["last"], r)
+    return r
 
 
 def finalize(cr):
     cr.require("calls_checked")
     cr.require("differential_runs")
+    cr.require("searches_checked")
     cr.assumptions += ["the baseline snapshot is taken from a fresh extraction of identical classes (class names are compared, not identities)"]
